@@ -2,7 +2,21 @@
 """Turns selftest/last_run.log into the detection table of DESIGN.md section 10 (between the markers)."""
 import re, os, json
 ROOT = os.path.dirname(os.path.dirname(os.path.abspath(__file__)))
-log = open(os.path.join(ROOT, "selftest/last_run.log")).read()
+# round 1 (own + first seeded changes) and rounds 2-3 (the "x" seeds, run after the widenings) are separate runs
+log = ""
+r1 = os.path.join(ROOT, "selftest/last_run.round1.log")
+r23 = os.path.join(ROOT, "selftest/last_run.rounds23.log")
+if os.path.exists(r1):
+    keep = True
+    for line in open(r1).read().splitlines():
+        if line.startswith("=== "):
+            keep = "x-" not in line
+        if keep:
+            log += line + "\n"
+if os.path.exists(r23):
+    log += open(r23).read()
+if not log:
+    log = open(os.path.join(ROOT, "selftest/last_run.log")).read()
 rows = []
 cur = None
 for line in log.splitlines():
